@@ -412,6 +412,50 @@ func (node *CallGraphStage) resolveForks(mapped ForkRootList, localRoot *CallGra
 	for _, d := range node.Disable {
 		findSplitCalls(d, splits, false)
 	}
+	// A value which forks over a call that is not one of the enclosing map
+	// calls still varies with an enclosing call which is mapped over that
+	// call's merged output (it iterates in lockstep with it), for example a
+	// `disabled = self.enable` which was simplified to the stage output
+	// behind `enable = split PIPELINE.flags`.
+	if len(splits) > 0 {
+		lockstep := func(exp Exp) {
+			for _, ref := range exp.FindRefs() {
+				for c, i := range ref.Forks {
+					if i.IndexSource() == nil {
+						continue
+					}
+					if _, unmerged := splits[c]; !unmerged {
+						// Merged over within the expression.
+						continue
+					}
+					known := false
+					for _, src := range mapped {
+						if src.Call() == c {
+							known = true
+							break
+						}
+					}
+					if known {
+						continue
+					}
+					for _, src := range mapped {
+						if src.split == nil {
+							continue
+						}
+						if isMergedOutputOf(src.split.Source, ref.Id) {
+							splits[src.Call()] = struct{}{}
+						}
+					}
+				}
+			}
+		}
+		for _, input := range node.Inputs {
+			lockstep(input.Exp)
+		}
+		for _, d := range node.Disable {
+			lockstep(d)
+		}
+	}
 	if len(splits) > 0 {
 		if localRoot == nil {
 			node.Forks = make(ForkRootList, 0, len(splits))
@@ -475,6 +519,26 @@ func (set *MapCallSet) refersToWhole(fqid string) bool {
 				return true
 			}
 		}
+	}
+	return false
+}
+
+// isMergedOutputOf returns true if the source of a map call is the merged
+// output of the mapped call with the given ID, so that the map call iterates
+// in lockstep with it.
+func isMergedOutputOf(src MapCallSource, fqid string) bool {
+	switch src := src.(type) {
+	case *BoundReference:
+		return src.Exp != nil && src.Exp.Id == fqid && src.Exp.OutputId == ""
+	case *RefExp:
+		return src.Id == fqid && src.OutputId == ""
+	case *MergeExp:
+		if src.Call != nil && src.Call.Fqid == fqid {
+			return true
+		}
+		return src.MergeOver != nil && isMergedOutputOf(src.MergeOver, fqid)
+	case *MapCallSet:
+		return src.refersToWhole(fqid)
 	}
 	return false
 }
